@@ -141,6 +141,60 @@ unsafe fn cstr(p: *const u8) -> Option<Vec<u8>> {
     Some(std::slice::from_raw_parts(p, n).to_vec())
 }
 
+/// What libyaml itself reports for a UTF-8 text it rejects (reader, scanner or
+/// parser level), with the positions exactly as libyaml gives them.
+#[derive(Clone, Debug)]
+pub struct LibyamlProblem {
+    pub problem: String,
+    pub line: u64,
+    pub column: u64,
+    pub index: u64,
+    pub offset: u64,
+    pub context: Option<String>,
+    pub context_line: u64,
+    pub context_column: u64,
+}
+
+/// Drives libyaml over the whole text (events only, no resolution) and returns
+/// its problem report, or None when libyaml accepts the stream.
+pub fn libyaml_problem(text: &[u8]) -> Option<LibyamlProblem> {
+    unsafe {
+        let mut parser = MaybeUninit::<yaml_parser_t>::uninit();
+        if yaml_parser_initialize(parser.as_mut_ptr()).fail {
+            return None;
+        }
+        let parser = parser.as_mut_ptr();
+        yaml_parser_set_encoding(parser, yaml_encoding_t::YAML_UTF8_ENCODING);
+        yaml_parser_set_input_string(parser, text.as_ptr(), text.len() as u64);
+        loop {
+            let mut event = MaybeUninit::<yaml_event_t>::uninit();
+            if yaml_parser_parse(parser, event.as_mut_ptr()).fail {
+                let pr: &yaml_parser_t = &*parser;
+                let s = |p: *const i8| cstr(p as *const u8).map(|b| String::from_utf8_lossy(&b).into_owned());
+                let out = LibyamlProblem {
+                    problem: s(pr.problem as *const i8).unwrap_or_default(),
+                    line: pr.problem_mark.line,
+                    column: pr.problem_mark.column,
+                    index: pr.problem_mark.index,
+                    offset: pr.problem_offset,
+                    context: s(pr.context as *const i8),
+                    context_line: pr.context_mark.line,
+                    context_column: pr.context_mark.column,
+                };
+                yaml_parser_delete(parser);
+                return Some(out);
+            }
+            let e = event.as_mut_ptr();
+            let ty = (*e).type_;
+            yaml_event_delete(e);
+            if ty == yaml_event_type_t::YAML_STREAM_END_EVENT {
+                yaml_parser_delete(parser);
+                return None;
+            }
+        }
+    }
+}
+
 /// Parses the whole UTF-8 text into events. Returns Err(message) on a parser
 /// error.
 fn events(text: &[u8]) -> Result<Vec<Ev>, String> {
